@@ -558,6 +558,159 @@ func (r *zvrvRun) batch() {
 	r.emit("b", zvrvBatch{Op: "tidbatch", N: len(r.tids), Sorted: s, Cols: cols}, map[string]interface{}{"calls": first})
 }
 
+// --- long histories in one process (N-th call effects: buffers that run dry, pools that start recycling, counters
+// that wrap).  The calls use one fixed well-formed input; a full event is recorded for the first call and for every
+// call whose result (transaction id aside) differs from all results seen before - identical events need not be judged
+// twice.  The transaction ids of ALL calls are aggregated into one "tidlong" event (see C14_Long in ReqParam.tla).
+
+type zvrvLong struct {
+	Op        string `json:"op"`
+	N         int    `json:"n"`         // successful calls = transaction ids aggregated
+	Fails     int    `json:"fails"`     // calls that failed or panicked
+	Badfmt    int    `json:"badfmt"`    // ids that are not 10 characters of [0-9a-f]
+	Dups      int    `json:"dups"`      // pairs of calls that got the same id
+	Zeroheavy int    `json:"zeroheavy"` // ids with at least 4 of their 5 bytes zero
+	Minwin    []int  `json:"minwin"`    // per byte position: fewest distinct values in an aligned window of 64 consecutive ids
+}
+
+func zvrparseTid(t string) (uint64, bool) {
+	if len(t) != 10 {
+		return 0, false
+	}
+	var v uint64
+	for i := 0; i < 10; i++ {
+		c := t[i]
+		switch {
+		case c >= '0' && c <= '9':
+			v = v<<4 | uint64(c-'0')
+		case c >= 'a' && c <= 'f':
+			v = v<<4 | uint64(c-'a'+10)
+		default:
+			return 0, false
+		}
+	}
+	return v, true
+}
+
+func (r *zvrvRun) long14(n int) {
+	in := zvrvIn14{Cmd: zvrhx("IFVer=6 SSHClientVersion=8.1 req=alice@host1 HardKey=true"), Log: zvrhx("alice"), Conn: zvrhx("192.0.2.7 50000 10.0.0.1 22"),
+		Argv: []string{zvrhx("gensign"), zvrhx("-c"), zvrhx("/usr/bin/gensign NSOK handler")}, Ipc: "v4", Xok: "t", Cls: "long"}
+	tmpl, _, _ := zvrmk14(in) // lexes the fixed input once (this call is not counted)
+	cmd, logname, conn := zvrunhx(in.Cmd), zvrunhx(in.Log), zvrunhx(in.Conn)
+	argv := []string{"gensign", "-c", "/usr/bin/gensign NSOK handler"}
+	seen := map[string]bool{}
+	ids := make([]uint64, 0, n)
+	ev := zvrvLong{Op: "tidlong", Minwin: []int{256, 256, 256, 256, 256}}
+	info := map[string]interface{}{"n": n}
+	for i := 0; i < n; i++ {
+		res, tid, et := zvrcallReqParam(cmd, logname, conn, argv)
+		k := fmt.Sprintf("%v|%v|%s|%s|%s|%s|%d|%d|%s|%s|%d", res.Ok, res.Pan, res.Logname, res.IP, res.Pol, res.Handler, res.Vmaj, res.Vmin, res.ReqUser, res.ReqHost, len(res.Tidc))
+		if !seen[k] && len(seen) < 200 {
+			seen[k] = true
+			e := tmpl
+			e.Res = res
+			in.Cls = fmt.Sprintf("long@%d", i)
+			r.add14(in, e, tid, et)
+		}
+		if !res.Ok || res.Pan {
+			ev.Fails++
+			continue
+		}
+		v, ok := zvrparseTid(tid)
+		if !ok {
+			if ev.Badfmt == 0 {
+				info["badfmt_at"], info["badfmt_id"] = i, zvrhx(tid)
+			}
+			ev.Badfmt++
+			continue
+		}
+		z := 0
+		for b := 0; b < 5; b++ {
+			if (v>>(8*uint(b)))&0xff == 0 {
+				z++
+			}
+		}
+		if z >= 4 {
+			if ev.Zeroheavy == 0 {
+				info["zeroheavy_at"], info["zeroheavy_id"] = i, tid
+			}
+			ev.Zeroheavy++
+		}
+		ids = append(ids, v)
+	}
+	ev.N = len(ids)
+	for w := 0; w+64 <= len(ids); w += 64 {
+		for b := 0; b < 5; b++ {
+			var have [256]bool
+			d := 0
+			for _, v := range ids[w : w+64] {
+				x := (v >> (8 * uint(4-b))) & 0xff
+				if !have[x] {
+					have[x] = true
+					d++
+				}
+			}
+			if d < ev.Minwin[b] {
+				ev.Minwin[b] = d
+			}
+		}
+	}
+	type iv struct {
+		v uint64
+		i int
+	}
+	srt := make([]iv, len(ids))
+	for i, v := range ids {
+		srt[i] = iv{v, i}
+	}
+	sort.Slice(srt, func(a, b int) bool { return srt[a].v < srt[b].v || (srt[a].v == srt[b].v && srt[a].i < srt[b].i) })
+	for i := 0; i < len(srt); {
+		j := i
+		for j < len(srt) && srt[j].v == srt[i].v {
+			j++
+		}
+		c := j - i
+		if c > 1 {
+			if ev.Dups == 0 {
+				info["dup_id"], info["dup_first_index"], info["dup_repeat_index"] = fmt.Sprintf("%010x", srt[i].v), srt[i].i, srt[i+1].i
+			}
+			if ev.Dups < 1<<29 {
+				ev.Dups += c * (c - 1) / 2
+			}
+		}
+		i = j
+	}
+	r.classes[fmt.Sprintf("long14/%d", n)] = ev.N
+	r.emit("L", ev, info)
+}
+
+// longRt: a long sequential history of round trips over a fixed pool of attribute sets.  An event is recorded for
+// every distinct (set, encoded text, decoded results) combination; identical events are counted, not repeated.
+func (r *zvrvRun) longRt(rnd *mrand.Rand, n int) {
+	pool := make([]*message.Attributes, 0, 64)
+	for len(pool) < 64 {
+		a := zvrrandSet(rnd)
+		if zvrfitsTLC(a.IfVer) {
+			pool = append(pool, a)
+		}
+	}
+	seen := map[string]bool{}
+	for i := 0; i < n; i++ {
+		k := rnd.Intn(len(pool))
+		ev, info, text, got := zvrmkRt(pool[k], "na", "long")
+		for _, g := range got {
+			zvrtamper(g)
+		}
+		b, _ := json.Marshal(ev)
+		key := fmt.Sprintf("%d|%s|%s", k, text, b)
+		if !seen[key] && len(seen) < 5000 {
+			seen[key] = true
+			r.addRt(ev, info)
+		}
+	}
+	r.classes[fmt.Sprintf("longrt/%d", n)] = len(seen)
+}
+
 // --- concretisation of the exported C14 classes
 
 type zvrvCase14 struct {
@@ -1620,6 +1773,7 @@ type zvrvPlan struct {
 		Rounds int `json:"rounds"`
 	} `json:"conc"`
 	Hist int `json:"hist"`
+	Long int `json:"long"`
 }
 
 func zvrmustUn(b []byte, v interface{}) {
@@ -1735,6 +1889,13 @@ func TestVerifReqParam(t *testing.T) {
 			run.conc14(rnd, plan.Conc.G, plan.Conc.Rounds)
 		} else {
 			run.concRt(rnd, plan.Conc.G, plan.Conc.Rounds, concFirst)
+		}
+	}
+	if plan.Long > 0 {
+		if plan.Prop == "C14" {
+			run.long14(plan.Long)
+		} else {
+			run.longRt(rnd, plan.Long)
 		}
 	}
 	if plan.Prop == "C14" && run.calls14 > 0 {
